@@ -248,12 +248,59 @@ def check_heap(rep, repo: Repo, pre: str = "") -> None:
                 raise AnalysisError(f"Heap.{name}: the element to move is selected with {e.name[8:]}(..., key=...); the sift "
                                     "rules cover explicit cost comparisons only")
 
+    # ... and sifts written with the "hole" technique (the moving element is held aside, the others are shifted into the
+    # hole inside the loop, the held element is stored once after it) have no swaps for H2 / H3 to read
+    def deep_strip(t):
+        if not isinstance(t, tuple) or not t:
+            return t
+        if t[0] == "old":
+            return deep_strip(t[1])
+        return tuple(deep_strip(x) if isinstance(x, tuple) else x for x in t)
+
+    def lift(t):
+        """sel(c, cost[p[a]], cost[p[b]])  ->  cost[p[sel(c, a, b)]]  (a running best cost is the cost at the best position)."""
+        if not isinstance(t, tuple) or not t:
+            return t
+        t = tuple(lift(x) if isinstance(x, tuple) else x for x in t)
+        if t[0] == "sel" and all(isinstance(a, tuple) and a[:2] == ("idx", COST) and a[2][:2] == ("idx", P) for a in t[2:4]):
+            return ("idx", COST, ("idx", P, ("sel", t[1], t[2][2][2], t[3][2][2])))
+        return t
+
+    def is_dad_of(t, x) -> bool:
+        """t is floor((x - 1) / 2) in one of the spellings H4 accepts for Heap.dad."""
+        if t == ("call", ("attr", SELF, "dad"), (x,), ()):
+            return True
+        inner = strip_int(t)
+        if inner[0] == "bin" and ((inner[1] == "//" and inner[3] == ("const", 2)) or (inner[1] == ">>" and inner[3] == ("const", 1))
+                                  or (inner[1] == "/" and inner[3] == ("const", 2) and inner != t)):
+            return lin_eq(lin(inner[2]), {x: 1, 1: -1})
+        return False
+
+    def hole_parts(wsp):
+        """(shift stores, final placement stores) of a sift written with the hole technique, else ([], [])."""
+        pst = [e for e in wsp.events if e.kind == "store" and e.target[0] == "idx" and e.target[1] == P]
+        swaps = {id(e) for e in pst for f in pst if f is not e and f.stmt is e.stmt
+                 and deep_strip(e.value) == ("idx", P, deep_strip(f.target[2])) and deep_strip(f.value) == ("idx", P, deep_strip(e.target[2]))}
+        sh = [e for e in pst if e.loops and id(e) not in swaps and deep_strip(e.value)[:2] == ("idx", P)]
+        fin = [e for e in pst if not e.loops and id(e) not in swaps]
+        return (sh, fin) if sh and fin else ([], [])
+
+    hole_up, hole_down = {}, {}
+    for (name, pol), wsp in SP.items():
+        shifts, final = hole_parts(wsp)
+        if shifts and final and name == "go_up":
+            hole_up[pol] = (shifts, final)  # decided by the hole-form rules of H3-up below
+        elif shifts and final:
+            hole_down[pol] = (shifts, final)  # decided by H3-down on a view in which the hole holds the held element
+
     # ---- H1 mirror -----------------------------------------------------------
     def mirror_sig(w: Walker, pol: str):
         from .schema import rewrite
 
         def f(t):
             c = _cost_cmp(t)
+            if c is None and t[0] == "cmp":
+                c = _cost_cmp(lift(deep_strip(t)))  # one side is a held copy (`key = cost[node]`) / a running best cost
             if c is not None:
                 lo, hi, strict = c
                 a, b = (lo, hi) if pol == "min" else (hi, lo)
@@ -314,6 +361,44 @@ def check_heap(rep, repo: Repo, pre: str = "") -> None:
         fnode = li.node
         rep.fn(pre + "H3-up-root", w.entry, "while " + unparse(fnode.test) + f"  [{pol}]", len(pos_guard) == 1,
                "sift-up must stop at the root (i > 0)", line=li.line)
+        if pol in hole_up:
+            # hole form: node = p[i0] is held aside; while i > 0 and cost[p[dad(i)]] (worse than) cost[node]:
+            #            p[i] = p[dad(i)]; pos[p[i]] = i; i = dad(i);   then p[i] = node; pos[node] = i
+            i_name = w.entry.params[1]
+            start = ("param", i_name)
+            held = ("idx", P, start)
+            dad_call = ("call", ("attr", SELF, "dad"), (I,), ())
+            cc = [x for x in (_cost_cmp(deep_strip(c)) for c in cs) if x]
+            okc, parent = False, None
+            if len(cc) == 1:
+                lo, hi, strict = cc[0]
+                child, parent = (lo, hi) if pol == "min" else (hi, lo)
+                okc = child == start and strict
+                if parent[0] == "phi" and parent[1] == li.lid and parent[2] in li.carried:
+                    j0, j1 = li.carried[parent[2]]
+                    i0c, i1c = li.carried.get(i_name, (None, None))
+                    okc = okc and i0c is not None and j0 == ("call", ("attr", SELF, "dad"), (i0c,), ()) \
+                        and j1 == ("call", ("attr", SELF, "dad"), (i1c,), ())
+                else:
+                    okc = okc and is_dad_of(parent, I)
+            rep.fn(pre + "H3-up-cmp", w.entry, "while " + unparse(fnode.test) + f"  [{pol}, hole form]", okc,
+                   "the loop must run while the element at dad(i) is strictly worse than the held element (the one that was at "
+                   "the start position)", line=li.line)
+            i0c, i1c = li.carried.get(i_name, (None, None))
+            rep.fn(pre + "H3-up-move", w.entry, f"i moves to its parent after the shift  [{pol}]", parent is not None and i1c == parent,
+                   f"i becomes '{show(i1c) if i1c else '?'}' instead of the parent position", line=li.line)
+            shifts, final = hole_up[pol]
+            sh = {(strip_old(e.target[2]), deep_strip(e.value)) for e in shifts}
+            rep.fn(pre + "H3-up-swap", w.entry, f"the parent is shifted into the hole: p[i] = p[dad(i)]  [{pol}]",
+                   parent is not None and sh == {(I, ("idx", P, parent))},
+                   "the loop body must move exactly the parent element into position i", line=li.line)
+            fin_ok = len(final) == 1 and strip_old(final[0].target[2]) == I and deep_strip(final[0].value) == held \
+                and final[0].seq > li.last_seq and all(
+                    f in (("cmp", "!=", *sorted([I, start], key=repr)),) or f in facts(li.guards) for f in facts(final[0].guards))
+            rep.fn(pre + "H3-up-place", w.entry, f"the held element is stored at the final position after the loop  [{pol}]", fin_ok,
+                   "after the shifts the element taken from the start position must be written to p[i] (i = where the loop "
+                   "stopped), unconditionally or when i moved", line=li.line)
+            continue
         cc = [x for x in (_cost_cmp(c) for c in cs) if x]
         ok = False
         detail = "sift-up must compare the cost of the element at the parent position with the one at i"
@@ -359,6 +444,37 @@ def check_heap(rep, repo: Repo, pre: str = "") -> None:
     for pol in ("min", "max"):
         w = SP[("go_down", pol)]
         w = substitute_view(w, derived_phis(w))  # `left` carried next to `i` as left_son(i)
+        hole = None
+        if pol in hole_down:
+            # hole form: the element taken from the start position is held aside (`node`, `key = cost[node]`) and is, in
+            # effect, the occupant of the hole at the current position i.  The view says exactly that: comparisons with
+            # the held key read cost[p[i]], and a running `best` cost selected arm by arm is the cost at the selected position
+            import dataclasses
+            import types
+            from .ir import plug_back
+            raw = SP[("go_down", pol)]
+            shifts, final = hole_down[pol]
+            lh = raw.loops[shifts[0].loops[-1]]
+            iname = raw.entry.params[1]
+            Ih = ("phi", lh.lid, iname)
+            keyt = ("idx", COST, ("idx", P, ("param", iname)))
+
+            def V(t):
+                if t is None:
+                    return None
+                return lift(plug_back(deep_strip(t), keyt, ("idx", COST, ("idx", P, Ih))))
+            view = types.SimpleNamespace(entry=w.entry, repo=w.repo, guard_src=dict(w.guard_src), binop=w.binop,
+                                         old_cause=getattr(w, "old_cause", {}), inlined=getattr(w, "inlined", []))
+            view.events = [dataclasses.replace(
+                e, target=V(e.target), value=V(e.value), args=tuple(V(a) for a in (e.args or ())),
+                guards=tuple((V(g), pl) for g, pl in e.guards)) for e in w.events]
+            view.loops = {lid: dataclasses.replace(l2, cond=V(l2.cond), guards=tuple((V(g), pl) for g, pl in l2.guards),
+                                                   carried={n: (V(a), V(b)) for n, (a, b) in l2.carried.items()})
+                          for lid, l2 in w.loops.items()}
+            for g, src in list(w.guard_src.items()):
+                view.guard_src.setdefault(V(g), src)
+            w = view
+            hole = (shifts, final, Ih, lh)
         # child selections: binds whose value is left_son(I) / right_son(I) (or 2I+1 / 2I+2) under a cost test
         cands = []
         for e in w.events:
@@ -443,6 +559,8 @@ def check_heap(rep, repo: Repo, pre: str = "") -> None:
                f"the position the walk continues at is '{show(J)[:120]}'")
         neq = ("cmp", "!=", *sorted([I, J], key=repr))
         st = [e for e in w.events if e.kind == "store" and e.target[0] == "idx" and e.target[1] == P]
+        if hole is not None:
+            st = [e for e in st if e.loops]  # (the placement after the loop has its own rule)
         if rec is not None:
             rep.ev(pre + "H3-down-rec", rec, has_guard(rec.guards, neq),
                    "descent must continue at the chosen child only when it differs from i")
@@ -451,10 +569,41 @@ def check_heap(rep, repo: Repo, pre: str = "") -> None:
             rep.fn(pre + "H3-down-rec", w.entry, f"the loop starts at the given position and stops when nothing moves  [{pol}]",
                    init == ("param", w.entry.params[1]) and all(has_guard(e.guards, neq) for e in st),
                    "the descent loop must start at i and exchange only while the chosen child differs from i")
+        if hole is not None:
+            shifts, final, Ih, lh = hole
+            start = ("param", w.entry.params[1])
+            sh = {(deep_strip(e.target[2]), deep_strip(e.value)) for e in st}
+            good = sh == {(deep_strip(I), ("idx", P, deep_strip(J)))} and all(has_guard(e.guards, neq) for e in st)
+            rep.fn(pre + "H3-down-swap", w.entry, f"the chosen child is shifted into the hole: p[i] = p[j] when j != i  [{pol}]", good,
+                   "the loop body must move exactly the chosen child into position i")
+            fin_ok = len(final) == 1 and strip_old(final[0].target[2]) == Ih and deep_strip(final[0].value) == ("idx", P, start) \
+                and final[0].seq > lh.last_seq and all(
+                    f in (("cmp", "!=", *sorted([Ih, start], key=repr)),) or f in facts(lh.guards) for f in facts(final[0].guards))
+            rep.fn(pre + "H3-down-place", w.entry, f"the held element is stored at the final position after the loop  [{pol}]", fin_ok,
+                   "after the shifts the element taken from the start position must be written to p[i] (i = where the loop "
+                   "stopped), unconditionally or when i moved")
+            continue
         sw = {(strip_old(e.target[2]), strip_old(e.value)) for e in st}
         good = sw == {(J, ("idx", P, I)), (I, ("idx", P, J))} and all(has_guard(e.guards, neq) for e in st)
         rep.fn(pre + "H3-down-swap", w.entry, f"p[j] and p[i] are exchanged when j != i  [{pol}]", good,
                "the sift-down does not exchange exactly p[chosen child] and p[i]")
+
+    def plain_subscripts(stmt) -> bool:
+        if not isinstance(stmt, ast.Assign) or len(stmt.targets) != 1 or not isinstance(stmt.targets[0], ast.Tuple):
+            return False
+        elts = stmt.targets[0].elts
+        vals = stmt.value.elts if isinstance(stmt.value, ast.Tuple) else []
+        return all(isinstance(t, ast.Subscript) and isinstance(t.slice, (ast.Name, ast.Constant)) for t in elts) \
+            and all(isinstance(v, (ast.Name, ast.Constant)) for v in vals) and len(vals) == len(elts)
+
+    def copies_only(t) -> bool:
+        if not isinstance(t, tuple) or not t:
+            return True
+        if t[0] == "old":
+            return True
+        if t[0] == "idx" and t[1] == P:
+            return False
+        return all(copies_only(x) for x in t if isinstance(x, tuple))
 
     # ---- H2 inverse maintenance ----------------------------------------------------
     n_h2 = 0
@@ -485,7 +634,12 @@ def check_heap(rep, repo: Repo, pre: str = "") -> None:
                          # the element itself, held in a local: only when it is not spelt as a read of p[] (the same
                          # spelling read after the store denotes another element)
                          or (f.target[2] == v and not any(u[0] == "idx" and u[1] == P for u in subterms(v)))
-                         or (f.target[2][0] == "old" and f.target[2][1] == strip_old(v)))
+                         or (f.target[2][0] == "old" and f.target[2][1] == strip_old(v))
+                         # ... or the same local copy on every arm of a policy selection (each read of p[] is an old copy)
+                         or (f.target[2] == v and copies_only(v))
+                         # ... or one simultaneous assignment `p[i], pos[x] = x, i` whose subscripts are plain locals: x is
+                         # the local's value on both sides, whatever p[] holds by then
+                         or (f.target[2] == v and f.stmt is e.stmt and plain_subscripts(e.stmt)))
                 ]
                 rep.ev(pre + "H2", e, len(match) >= 1,
                        f"p[{show(a)}] is written but pos[...] of the element placed there is not set to {show(a)}")
@@ -543,6 +697,9 @@ def check_heap(rep, repo: Repo, pre: str = "") -> None:
 
     for e in up:
         extra = [f for f in facts(e.guards) if not colour_fact(f)]
+        # (`if pos > 0: go_up(pos)` is go_up(pos): the sift loop runs while the position is > 0)
+        extra = [f for f in extra if f not in (("cmp", "<", ("const", 0), e.args[0]), ("cmp", "<=", ("const", 1), e.args[0]),
+                                                ("cmp", "!=", *sorted([("const", 0), e.args[0]], key=repr)))]
         rep.ev(pre + "H5-update-sift-guard", e, not extra,
                "" if not extra else f"the sift-up of a queued element is conditional on '{show(extra[0])[:80]}': whether an improved "
                "key moves towards the root may depend only on the element's colour (a direction chosen by comparing costs must "
@@ -618,15 +775,33 @@ def check_heap(rep, repo: Repo, pre: str = "") -> None:
     for name, test, delta in (("insert", "is_full", "+"), ("remove", "is_empty", "-")):
         w = W[name]
         guard = ("not", ("call", ("attr", SELF, test), (), ()))
+        # the same test written out (`if self.last == self.size - 1:`) when the predicate itself has the right form
+        pred, pred_ok = (full, okf) if test == "is_full" else (emp, oke)
+        if pred_ok and pred is not None and not any(has_guard(e.guards, guard) or has_guard(e.guards, mk_not(guard))
+                                                    for e in w.events):
+            guard = mk_not(pred)
         eff = [e for e in w.events if e.kind == "store" or (e.kind == "call" and e.name in ("go_up", "go_down"))]
         unguarded = [e for e in eff if not has_guard(e.guards, guard)]
         rep.fn(pre + "H6-guard", w.entry, f"{name} changes state only when not {test}()", not unguarded and bool(eff),
                f"{len(unguarded)} effect(s) outside the capacity guard: "
                + "; ".join(e.text() for e in unguarded[:3]))
+        lst0 = [x for x in w.events if x.kind == "store" and x.target == LAST]
+
+        def new_last(t):
+            """`self.last` as read after the store, or a local that holds the very value stored into it."""
+            if t == LAST:
+                return True
+            return len(lst0) == 1 and not lst0[0].aug and strip_old(t) == strip_old(lst0[0].value)
         for e in eff:
             extra = [f for f in facts(e.guards) if f != guard]
             allowed = e.kind == "call" and e.name == "go_down" and all(
-                f in (("cmp", "<", ("const", 0), LAST), ("cmp", "<=", ("const", 1), LAST)) for f in extra)
+                f[0] == "cmp" and ((f[1] == "<" and f[2] == ("const", 0) and new_last(f[3]))
+                                   or (f[1] == "<=" and f[2] == ("const", 1) and new_last(f[3]))) for f in extra) \
+                and (not lst0 or e.seq > lst0[0].seq)
+            # go_up(i) does nothing for i == 0 (H3-up: the loop runs while i > 0): `if i > 0: go_up(i)` is go_up(i)
+            allowed = allowed or (e.kind == "call" and e.name == "go_up" and len(e.args) == 1 and all(
+                f in (("cmp", "<", ("const", 0), e.args[0]), ("cmp", "<=", ("const", 1), e.args[0]),
+                      ("cmp", "!=", *sorted([("const", 0), e.args[0]], key=repr))) for f in extra))
             rep.ev(pre + "H6-exact-guard", e, not extra or allowed,
                    "" if not extra or allowed else f"{name} performs this step only when '{show(extra[0])[:80]}': on the other "
                    "inputs the heap is left in an inconsistent / unsifted state")
@@ -680,7 +855,7 @@ def check_heap(rep, repo: Repo, pre: str = "") -> None:
             rep.fn(pre + "H6-sift", w.entry, "the root is sifted down after the heap shrank",
                    len(sift) == 1 and sift[0].seq > ls, "go_down(0) must follow last -= 1")
             rt = [e for e in w.events if e.kind == "return" and e.fn is w.entry and has_guard(e.guards, guard)]
-            okr = len(rt) == 1 and removed(rt[0].value, rt[0].seq)
+            okr = len(rt) >= 1 and all(removed(r.value, r.seq) for r in rt)  # (an early `return p` when no sift is needed)
             rep.fn(pre + "H6-ok", w.entry, "remove returns the element that was at the root", okr,
                    f"returns '{show(rt[0].value) if rt else '?'}'")
             pr = [e for e in w.events if e.kind == "store" and e.target[0] == "idx" and e.target[1] == POS
